@@ -273,12 +273,16 @@ func TestC14(t *testing.T) {
 		t      Target
 		reject bool
 		leaf   string // which names the leaf covers: both, public-only, secret-only, neither
+		noSNI  bool   // RemoveSNIExtension: no server_name extension in the outer hello
 	}
 	var ejobs []ejob
 	for _, tg := range echTargets {
 		for _, rej := range []bool{false, true} {
 			for _, l := range []string{"both", "public-only", "secret-only", "neither"} {
-				ejobs = append(ejobs, ejob{tg, rej, l})
+				ejobs = append(ejobs, ejob{tg, rej, l, false})
+				if tg.ID.Client != tls.HelloGolang.Client && tg.Spec == nil {
+					ejobs = append(ejobs, ejob{tg, rej, l, true})
+				}
 			}
 		}
 	}
@@ -307,7 +311,11 @@ func TestC14(t *testing.T) {
 		} else {
 			scfg.EncryptedClientHelloKeys = peer.ECHServerKeys(true, key)
 		}
-		h := RunCase(j.t, GridCase{Server: scfg}, secret, func(c *tls.Config) { c.EncryptedClientHelloConfigList = peer.ECHConfigList(key) }, peer.Opts{})
+		tg := j.t
+		if j.noSNI {
+			tg.Pre = func(u *tls.UConn) error { return u.RemoveSNIExtension() }
+		}
+		h := RunCase(tg, GridCase{Server: scfg}, secret, func(c *tls.Config) { c.EncryptedClientHelloConfigList = peer.ECHConfigList(key) }, peer.Opts{})
 		got := classify(h.ClientErr)
 		verifyName := secret
 		wantOK := "ok"
@@ -319,14 +327,14 @@ func TestC14(t *testing.T) {
 		if nameMatches(verifyName, sans) {
 			want = wantOK
 		}
-		sig := map[string]string{"target": j.t.Name, "ech": map[bool]string{true: "rejected", false: "accepted"}[j.reject], "leaf": j.leaf}
-		rep := map[string]any{"case": i, "target": j.t.Name, "ech_rejected": j.reject, "leaf": j.leaf, "client_err": fmt.Sprint(h.ClientErr), "server_err": fmt.Sprint(h.ServerErr)}
+		sig := map[string]string{"target": j.t.Name, "ech": map[bool]string{true: "rejected", false: "accepted"}[j.reject], "leaf": j.leaf, "sni_extension": map[bool]string{true: "removed", false: "sent"}[j.noSNI]}
+		rep := map[string]any{"case": i, "target": j.t.Name, "ech_rejected": j.reject, "leaf": j.leaf, "no_sni": j.noSNI, "client_err": fmt.Sprint(h.ClientErr), "server_err": fmt.Sprint(h.ServerErr)}
 		if got != want {
 			sig["kind"] = "ech_certificate_verification"
 			r.Violation(sig, fmt.Sprintf("%s: ECH %s, leaf valid for %s: client result %q (%v), expected %q (verification name %q)", j.t.Name, sig["ech"], j.leaf, got, h.ClientErr, want, verifyName), rep)
 		}
 		r.Count("ech_cells", 1)
-		r.Case(fmt.Sprintf("ech|%s|%v|%s", j.t.Name, j.reject, j.leaf), true)
+		r.Case(fmt.Sprintf("ech|%s|%v|%s|nosni=%v", j.t.Name, j.reject, j.leaf, j.noSNI), true)
 	})
 	r.Floor("expected_accept", 200)
 	r.Floor("expected_reject", 400)
